@@ -9,7 +9,7 @@ JUDGE = ("C02.",)
 PROGRAMS = ["forms", "genctx"]
 RUNS = {"quick": 3000, "thorough": 150000}
 
-GEN_FNS = ("gen", "genloop", "genretry")
+GEN_FNS = ("gen", "genloop", "genretry", "genstop")
 
 
 def gen_generator_history(rng):
@@ -116,6 +116,8 @@ def gen(rng, tier, quarantine=()):
                 k = rng.choice(["gen_next"] * 4 + ["gen_send"] * 3 + ["gen_throw"] * 2 + ["gen_close"])
                 ops.append({"op": k, "gen": g, "tape": gen_tape(rng, 8),
                             "faults": gen_faults(rng, 8, rng.choice([0, 0, 1]))})
+                if k == "gen_throw" and rng.random() < 0.4:
+                    ops[-1]["exc"] = "stop"
             ops.append({"op": "gen_close", "gen": g, "tape": [], "faults": {}})
         else:
             op = call_shape(rng, qual, fnir, "k1")
